@@ -57,6 +57,8 @@ Pool == <<
   \* a SHARED macro, redefined (with the same definition) by one evaluation while others call it: "every global
   \* definition is seen entirely or not at all": a reader never finds the name bound to something that is not the macro
   \* (its operand is an undefined call: evaluated only if the name is, for a moment, an ordinary function)
+  \* "any number of evaluations including futures": 40 futures alive at once, each awaiting a future it starts itself
+  "(def outer%T (map (fn [i] (future (do (sleep 30) @(future (+ i %T))))) (range 0 40))) (trace! (reduce + 0 (map deref outer%T)))",
   Redefs \o "(trace! (smac (undefined-thing %T)))",
   "(def many%T (concat (range 0 50) (range 0 50) (range 0 50))) (trace! (count (map (fn [i] (smac (undefined-thing i))) many%T))) " \o
   "(trace! (count (map (fn [i] (smac (undefined-thing i %T))) many%T))) (trace! (smac (undefined-thing)))" >>
